@@ -390,8 +390,9 @@ def gen_memdep_x86(rng):
             sym[reg] = None if v is None else (v[0], v[1] + (1 if lines[-1].startswith("inc") else -1))
         elif r < 0.80:
             c = c1 if reg in holders_b else c2
-            if c == reg or (c in sym and sym[c] is None):
-                continue                         # (a fresh copy INTO a clobbered register stays "unknown" in the tracker: see notes/C06.md)
+            if c == reg:
+                continue
+            # (a fresh copy INTO a clobbered register makes it known again: the repaired sticky unknown, notes/C06.md)
             lines.append("movq %s, %s" % (reg, c))         # register copy; both stay usable afterwards
             sym[c] = sym.get(reg, (reg, 0))
             (holders_b if reg in holders_b else holders_i).append(c) if c not in pool else None
@@ -531,8 +532,9 @@ def gen_memdep_a64(rng):
         elif r < 0.62:
             k = rng.choice([8, 16])
             c = c1 if reg in holders_b else c2
-            if c == reg or (c in sym and sym[c] is None):
-                continue                         # (a fresh copy INTO a clobbered register stays "unknown" in the tracker: see notes/C06.md)
+            if c == reg:
+                continue
+            # (a fresh copy INTO a clobbered register makes it known again: the repaired sticky unknown, notes/C06.md)
             lines.append("add %s, %s, #%d" % (c, reg, k))         # copy with increment
             sym[c] = None if v is None else (v[0], v[1] + k)
             (reg_post.add if reg in reg_post else reg_post.discard)(c)    # a copy inherits where its value comes from
@@ -540,8 +542,9 @@ def gen_memdep_a64(rng):
                 (holders_b if reg in holders_b else holders_i).append(c)
         elif r < 0.80:
             c = c1 if reg in holders_b else c2
-            if c == reg or (c in sym and sym[c] is None):
-                continue                         # (a fresh copy INTO a clobbered register stays "unknown" in the tracker: see notes/C06.md)
+            if c == reg:
+                continue
+            # (a fresh copy INTO a clobbered register makes it known again: the repaired sticky unknown, notes/C06.md)
             lines.append("mov %s, %s" % (c, reg))
             sym[c] = v
             (reg_post.add if reg in reg_post else reg_post.discard)(c)    # a copy inherits where its value comes from
